@@ -33,7 +33,7 @@ func (c08) Batches(tier string, seed uint64) []core.Batch {
 	b = append(b, spread("cycle", 8, tierN(tier, 1500, 8000))...)
 	b = append(b, spread("encoder", 4, tierN(tier, 1200, 6000))...)
 	b = append(b, spread("corpus", 4, 0)...) // installed DEP-5 copyright files and dpkg database stanzas: read, write, read
-	return b
+	return append(b, conc(tierN(tier, 150, 1000), "para", "encoder")...)
 }
 
 func (c08) Mandatory(tier string) []string {
@@ -395,6 +395,9 @@ func (p c08) encoderCase(c *core.C, items []encS) {
 }
 
 func (p c08) RunBatch(t *core.T, b core.Batch) {
+	if concDispatch(p, t, b) {
+		return
+	}
 	r := t.Rand(b.Name, fmt.Sprint(b.Arg))
 	switch b.Name {
 	case "corpus":
